@@ -45,6 +45,8 @@ MIN_REACH = {
     "cli_runs_with_function_in_a_module_beside_the_crop": {"quick": 2, "thorough": 15},
     "partial_state_scripts": {"quick": 12, "thorough": 120},
     "scripts_with_set_up_code_of_several_lines": {"quick": 3, "thorough": 40},
+    "crops_with_the_leftover_of_a_failed_result_write": {"quick": 6, "thorough": 60},
+    "batch_ids_given_as_numpy_integers": {"quick": 2, "thorough": 40},
 }
 TIME_BUDGET = {"quick": 500, "thorough": 3400}
 CASE_TIMEOUT = {"quick": 400, "thorough": 900}
@@ -74,7 +76,7 @@ def cases(ctx):
     for rep in range(ctx.pick(3, 24)):
         for (sch, mode, state) in combos:
             B = rng.randint(1, 8) if rep else [3, 4, 2][idx % 3]
-            ids_kind = rng.choice(["none", "none", "list", "list", "tuple", "single_list", "int"] if rep else ["none", "list"][idx % 2:idx % 2 + 1])
+            ids_kind = rng.choice(["none", "none", "list", "list", "tuple", "single_list", "int", "nparray", "npint"] if rep else ["none", "list"][idx % 2:idx % 2 + 1])
             c = {"scheduler": sch if rng.random() < 0.8 else sch.upper(), "mode": mode, "state": state, "B": B, "bs": rng.choice([1, 2]),
                  "ids_kind": ids_kind, "idx": idx, "oseed": rng.randint(0, 10 ** 9), "via_method": rng.random() < 0.3,
                  "rel_parent": rng.random() < 0.3}
@@ -125,6 +127,10 @@ def _options(rng, sch):
         o["mpi"] = True
     o["conda_env"] = rng.choice([False, False, True, "myenv"])
     return o
+
+
+def missing_debris(case):
+    return case.get("oseed", case.get("B", 0)) % 3 == 1
 
 
 def run_case(ctx, case):
@@ -181,6 +187,17 @@ def run_case(ctx, case):
     with quiet():
         if pre:
             crop.grow(pre)
+    if missing_debris(case) and len(pre) < B:
+        # an earlier grow of a still missing batch died while writing its result (disk full, a result that cannot be
+        # stored): whatever the library's own writer left behind, that batch is still to be grown
+        from xyzpy.gen import cropping as _cr
+        from .c09 import _Unwritable
+        k_ = [b for b in allb if b not in pre][0]
+        try:
+            _cr.write_to_disk(_Unwritable(), os.path.join(cropkit.crop_dir(tmp, NAME), "results", "xyz-result-%d.jbdmp" % k_))
+        except Exception:
+            pass
+        ctx.count("crops_with_the_leftover_of_a_failed_result_write")
     log_off = probe.read_log(logfile)[1]
     batch_settings = {i: [probe.canon(kw) for kw in cropkit.read_pickle(p)] for i, p in cropkit.batch_files(tmp, NAME).items()}
     missing0 = [b for b in allb if b not in pre]
@@ -230,13 +247,22 @@ def run_case(ctx, case):
         ids = [rng.choice(allb)]
     elif kind == "int":
         ids = rng.choice(allb)
+    elif kind == "nparray":
+        # batch numbers picked with numpy (np.arange / np.flatnonzero of what is missing): numpy integers
+        import numpy as np
+        ids = np.array(sorted(rng.sample(allb, rng.randint(1, B))))
+        ctx.count("batch_ids_given_as_numpy_integers")
+    elif kind == "npint":
+        import numpy as np
+        ids = np.int64(rng.choice(allb))
+        ctx.count("batch_ids_given_as_numpy_integers")
     if (opts.get("num_procs") and rng.random() < 0.3 and case["mode"] == "single") or (case["mode"] == "array" and case["idx"] % 3 == 0):
         # workers inside one job: single mode parallelises over batches, array mode over the settings of each batch
         opts["num_workers"] = 2 + case["idx"] % 2
         opts["num_procs"] = opts["num_workers"]
         if case["mode"] == "array":
             ctx.count("array_scripts_with_workers_inside_a_batch")
-    intended = ([ids] if isinstance(ids, int) else list(ids)) if ids is not None else (allb if not pre else missing0)
+    intended = ([int(ids)] if not hasattr(ids, "__len__") else [int(i) for i in ids]) if ids is not None else (allb if not pre else missing0)
     cwd0 = os.getcwd()
     try:
         with quiet():
